@@ -54,6 +54,38 @@ fn main() {
             };
             driver::check(sc, &o)
         },
+        "case" => {
+            // run one generated case by index and print its result (debugging aid)
+            let id = args.get(2).cloned().unwrap_or_default();
+            let idx: u64 = args.get(3).and_then(|s| s.parse().ok()).unwrap_or(0);
+            let sc = scen::lookup(&id).expect("unknown property");
+            let tier = match arg_val(&args, "--tier").as_deref() {
+                Some("thorough") => Tier::Thorough,
+                _ => Tier::Quick,
+            };
+            let seed = arg_val(&args, "--seed").and_then(|s| s.parse().ok()).unwrap_or(20261003);
+            let mut params = sc.gen(seed, idx, tier, scen::VARIANT);
+            if args.iter().any(|a| a == "--trace") {
+                params["sim"]["log_seam"] = serde_json::json!(true);
+            }
+            let runner = driver::Runner::new(sc);
+            let r = runner.run_case(&params);
+            println!("params: {}", params);
+            println!("verdict: {:?} note: {}", r.verdict, r.note);
+            for v in &r.violations {
+                println!("  {} :: {}", v.0, v.1);
+            }
+            println!("trace_hash {} steps {} stats {}", r.trace_hash(), r.body["steps"], r.body["stats"]);
+            if args.iter().any(|a| a == "--trace") {
+                for l in r.body["seam_tail"].as_array().into_iter().flatten() {
+                    println!("    seam  {}", l.as_str().unwrap_or(""));
+                }
+                for l in r.body["history_tail"].as_array().into_iter().flatten() {
+                    println!("    api   {}", l.as_str().unwrap_or(""));
+                }
+            }
+            0
+        },
         "replay" => {
             let path = args.get(2).cloned().unwrap_or_default();
             driver::replay(&path, args.iter().any(|a| a == "--trace"))
